@@ -44,6 +44,19 @@ def check_gen(pid, tier):
         name, mod, cfg = job[:3]
         sim = job[3] if len(job) > 3 else None
         v.add_mc(run_mc(name, mod, cfg, simulate=sim, required_actions=None if sim else (GEN_REQUIRED.get(mod) if tier == "thorough" else None)))
+    if pid == "C01":
+        # anchor of the transcription: the SPECIFICATION against libfuzzy's own vectors shipped with
+        # the repository (574 expected hashes over 237 files); a disagreement is a specification
+        # error (exit 2), it says nothing about the code
+        aout = fresh_dir("tr_C01_anchor")
+        ast = run_harness(binp, ["gen", "anchor", "--out", aout, "--shards", str(TV_PAR)])
+        ares = run_tv("TraceGen.tla", "TraceGen.cfg", sorted(glob.glob(os.path.join(aout, "*.ndjson"))), timeout=3000)
+        if any(not r["accepted"] for r in ares):
+            bad = [r for r in ares if not r["accepted"]][0]
+            raise ToolError("the specification disagrees with a libfuzzy test vector: %s event %s %s" % (bad["file"], bad["rejected_at"], bad["mismatch"][:1]))
+        v.cov["anchor_vectors_spec_vs_libfuzzy"] = ast.get("anchor", {}).get("vectors", 0)
+        v.cov["states"] += sum(r["states"] for r in ares)
+        v.cov["transitions"] += sum(r["states"] for r in ares)
     files = sorted(glob.glob(os.path.join(out, "*.ndjson")))
     # thorough: the implementation-shaped model L2 runs in lock-step with L1 on every trace
     lock = tier == "thorough" and pid in ("C01", "C03", "C12", "C13")
